@@ -892,9 +892,11 @@ impl<S: VhostUserBackendReqHandler> BackendReqHandler<S> {
         // If Bit 8 is unset, the data must contain a file descriptor.
         let has_fd = (msg.value & 0x100u64) == 0;
 
+        // With the invalid FD flag set, any number of attached descriptors is wrong, not only one.
+        let attached = files.as_ref().map_or(0, |f| f.len());
         let file = take_single_file(files);
 
-        if has_fd && file.is_none() || !has_fd && file.is_some() {
+        if has_fd && file.is_none() || !has_fd && attached != 0 {
             return Err(Error::InvalidMessage);
         }
 
